@@ -1,11 +1,12 @@
 (* C11 - Condvar loses no notification; Barrier / WaitGroup release exactly when due.
    Property theorems only: each is closed by `exact` of a lemma proved elsewhere and followed by Print Assumptions.
-   Model: Sync/CondvarModel.v (abstract C05 mutex + to_wake FIFO + SyncBlocker handshake + Blocker token spec). *)
+   Model: Sync/CondvarModel.v (abstract C05 mutex + to_wake FIFO + SyncBlocker handshake + Blocker token spec).
+   This file: (i) notifications are not lost, the tie of the Condvar acceptor, non-vacuity.  The other parts of the property are in
+   Properties/C11_wait.v (ii: wait re-acquires the mutex), C11_barrier.v / C11_barrier_live.v (iii: Barrier, safety / progress)
+   and C11_wg.v (iv: WaitGroup) - separate files so that the Print Assumptions passes run in parallel. *)
 From Coq Require Import List ZArith.
 Import ListNotations.
-Require Import MayV.Sync.CondvarModel MayV.Sync.CondvarInv MayV.Sync.CondvarL4 MayV.Sync.CondvarThm MayV.Sync.CondvarAccept
-               MayV.Sync.BarrierModel MayV.Sync.BarrierThm MayV.Sync.BarrierCv MayV.Sync.BarrierLive
-               MayV.Sync.WaitGroupModel MayV.Sync.WaitGroupThm MayV.Sync.WaitGroupLive.
+Require Import MayV.Sync.CondvarModel MayV.Sync.CondvarInv MayV.Sync.CondvarL4 MayV.Sync.CondvarThm MayV.Sync.CondvarAccept.
 Open Scope Z_scope.
 
 (* ---- (i) notify_one / notify_all lose nothing ---- *)
@@ -60,168 +61,6 @@ Theorem C11_notified_waiter_not_stranded :
 Proof. exact notified_waiter_not_stranded. Qed.
 Print Assumptions C11_notified_waiter_not_stranded.
 
-(* ---- (ii) wait re-acquires the mutex on every return path ---- *)
-
-Theorem C11_wait_holds_mutex :
-  forall s a, Reach s -> has_mx (A s a) = true -> mx s = Some a.
-Proof. exact wait_holds_mutex. Qed.
-Print Assumptions C11_wait_holds_mutex.
-
-Theorem C11_wait_returns_holding_mutex :
-  forall s a s', Reach s -> apc (A s a) = P1 -> step s (Step a) = Some s' -> apc (A s' a) = Idle /\ mx s' = Some a.
-Proof. exact wait_returns_holding_mutex. Qed.
-Print Assumptions C11_wait_returns_holding_mutex.
-
-Theorem C11_canceled_wait_releases_mutex :
-  forall s a s', Reach s -> apc (A s a) = C1 -> step s (Step a) = Some s' ->
-  mx s = Some a /\ mx s' = None /\ pois s' = pois s /\ apc (A s' a) = Dead.
-Proof. exact canceled_wait_releases_mutex. Qed.
-Print Assumptions C11_canceled_wait_releases_mutex.
-
-Theorem C11_canceled_only_if_cancelled :
-  forall s a, Reach s -> apc (A s a) = C1 -> ccan (A s a) = true /\ aco (A s a) = true.
-Proof. exact canceled_only_if_cancelled. Qed.
-Print Assumptions C11_canceled_only_if_cancelled.
-
-Theorem C11_timeout_not_early :
-  forall s a, Reach s -> apc (A s a) = P1 -> ares (A s a) = 1%nat -> exists dl, adl (A s a) = Some dl /\ dl <= now s.
-Proof. exact timeout_not_early. Qed.
-Print Assumptions C11_timeout_not_early.
-
-Theorem C11_relock_cancel_disabled :
-  forall s a, Reach s -> apc (A s a) = L -> aco (A s a) = true -> cdis (A s a) = S (cdis0 (A s a)).
-Proof. exact relock_cancel_disabled. Qed.
-Print Assumptions C11_relock_cancel_disabled.
-
-(* ---- (iii) Barrier(n) as a client program (Sync/BarrierModel.v), for every n >= 1 ---- *)
-Close Scope Z_scope.
-
-(* a completed generation had exactly n arrivals and exactly one leader *)
-Theorem C11_barrier_generation_complete :
-  forall n, 1 <= n -> forall s g, BReach n s -> g < gen s -> arr s g = n /\ ldr s g = 1.
-Proof. exact barrier_generation_complete. Qed.
-Print Assumptions C11_barrier_generation_complete.
-
-(* generation g + 1 cannot complete - not even begin - before generation g has completed *)
-Theorem C11_barrier_generations_in_order :
-  forall n, 1 <= n -> forall s g, BReach n s -> gen s <= g -> arr s g < n /\ ldr s g = 0 /\ ret s g = 0 /\ (gen s < g -> arr s g = 0).
-Proof. exact barrier_generations_in_order. Qed.
-Print Assumptions C11_barrier_generations_in_order.
-
-(* nobody passes the barrier before all n parties of its generation have arrived *)
-Theorem C11_barrier_no_early_pass :
-  forall n, 1 <= n -> forall s g, BReach n s -> 0 < ret s g -> arr s g = n /\ ldr s g = 1.
-Proof. exact barrier_no_early_pass. Qed.
-Print Assumptions C11_barrier_no_early_pass.
-
-(* every arrival returned (leader or follower) or is still inside wait(): at most n returns per generation *)
-Theorem C11_barrier_returns_accounted :
-  forall n, 1 <= n -> forall s g, BReach n s ->
-  arr s g = ret s g + ldr s g + cntl g (lgen s) (inl s) /\ ret s g + ldr s g <= n.
-Proof. intros n H s g R. split; [exact (barrier_arrivals_accounted n H s g R) | exact (barrier_at_most_n_return n H s g R)]. Qed.
-Print Assumptions C11_barrier_returns_accounted.
-
-(* the progress half, over the product model (barrier program x Condvar protocol), DESIGN 2.2 quiescence form: when no
-   actor has an enabled transition of its own (BQuiescent: neither barrier code nor Condvar code; only new calls, time and
-   cancellation could still happen) the mutex is free and every actor has returned from wait(), or is a cancelled
-   coroutine that died inside Condvar::wait, or is parked for the generation IN PROGRESS with its blocker unflagged in
-   the queue: the leader's notify_all has reached every waiter of every completed generation *)
-Theorem C11_barrier_quiescent :
-  forall n, 1 <= n -> forall s, BReach n s -> BQuiescent n s ->
-  mx (cs s) = None /\
-  forall a, bpc s a = BIdle \/ bpc s a = BGone \/
-            (bpc s a = BWait /\ apc (A (cs s) a) = WW /\ lgen s a = gen s /\
-             unp (Bk (cs s) (ab (A (cs s) a))) = false /\ In (ab (A (cs s) a)) (q (cs s))).
-Proof. exact barrier_quiescent. Qed.
-Print Assumptions C11_barrier_quiescent.
-
-(* per completed generation exactly n arrivals: the followers that returned + the ONE leader that returned + the cancelled
-   coroutines that died inside (each of them a coroutine whose cancel bit is set) *)
-Theorem C11_barrier_exactly_n_return :
-  forall n, 1 <= n -> forall s g, BReach n s -> BQuiescent n s -> g < gen s ->
-  arr s g = n /\ ldr s g = 1 /\ lret s g = 1 /\ ret s g + lret s g + cntl g (lgen s) (inl s) = n /\
-  forall a, In a (inl s) -> lgen s a = g -> bpc s a = BGone /\ ccan (A (cs s) a) = true /\ aco (A (cs s) a) = true.
-Proof. exact barrier_exactly_n_return. Qed.
-Print Assumptions C11_barrier_exactly_n_return.
-
-(* ... without cancellation: exactly n arrivals of every completed generation have returned, exactly one of them as leader *)
-Theorem C11_barrier_exactly_n_return_no_cancel :
-  forall n, 1 <= n -> forall s g, BReach n s -> BQuiescent n s -> (forall a, ccan (A (cs s) a) = false) -> g < gen s ->
-  arr s g = n /\ lret s g = 1 /\ ret s g + lret s g = n.
-Proof. exact barrier_exactly_n_return_no_cancel. Qed.
-Print Assumptions C11_barrier_exactly_n_return_no_cancel.
-
-(* a waiter parked in a quiescent state belongs to the generation in progress, which has fewer than n arrivals *)
-Theorem C11_barrier_parked_only_for_incomplete_generation :
-  forall n, 1 <= n -> forall s a, BReach n s -> BQuiescent n s -> bpc s a = BWait -> lgen s a = gen s /\ arr s (gen s) < n.
-Proof. exact barrier_parked_only_for_incomplete_generation. Qed.
-Print Assumptions C11_barrier_parked_only_for_incomplete_generation.
-
-(* count / generation_id are touched only by the holder of the barrier's mutex (uses C11.ii) *)
-Theorem C11_barrier_race_free :
-  forall n s, BReach n s -> viol s = false.
-Proof. exact barrier_race_free. Qed.
-Print Assumptions C11_barrier_race_free.
-
-(* ---- (iv) WaitGroup as a client program (Sync/WaitGroupModel.v) ---- *)
-
-Theorem C11_wg_count_is_live_handles :
-  forall s, WReach s -> wcnt s = length (hl s).
-Proof. exact wg_count_is_live_handles. Qed.
-Print Assumptions C11_wg_count_is_live_handles.
-
-(* wait() returns only when every handle has been dropped (count = 0): never early *)
-Theorem C11_wg_wait_returns_only_when_all_dropped :
-  forall s a, WReach s -> wpc s a = WRet -> hl s = [] /\ wcnt s = 0.
-Proof. exact wg_wait_returns_only_when_all_dropped. Qed.
-Print Assumptions C11_wg_wait_returns_only_when_all_dropped.
-
-(* the progress half, over the product model (wait-group program x Condvar protocol), quiescence form: when no actor has
-   an enabled transition of its own the mutex is free and every actor is outside every call, or a cancelled coroutine that
-   died in Condvar::wait, or parked in the wait loop of wait() WHILE A HANDLE IS STILL ALIVE *)
-Theorem C11_wg_quiescent :
-  forall s, WReach s -> WQuiescent s ->
-  mx (wcs s) = None /\
-  forall a, wpc s a = WIdle \/ wpc s a = WGone \/
-            (wpc s a = WLw /\ apc (A (wcs s) a) = WW /\ hl s <> [] /\
-             unp (Bk (wcs s) (ab (A (wcs s) a))) = false /\ In (ab (A (wcs s) a)) (q (wcs s))).
-Proof. exact wg_quiescent. Qed.
-Print Assumptions C11_wg_quiescent.
-
-(* no lost notify_all: once every handle has been dropped nobody stays inside wait() *)
-Theorem C11_wg_no_waiter_stranded :
-  forall s, WReach s -> WQuiescent s -> hl s = [] -> forall a, wpc s a = WIdle \/ wpc s a = WGone.
-Proof. exact wg_no_waiter_stranded. Qed.
-Print Assumptions C11_wg_no_waiter_stranded.
-
-(* "wait returns exactly when every other clone has been dropped" (safety + quiescence form): never early; not parked once
-   the count is zero; parked in a quiescent state only while a handle is alive; WGone is a cancelled coroutine *)
-Theorem C11_wg_wait_returns_exactly_when_all_dropped :
-  forall s a, WReach s ->
-  (wpc s a = WRet -> hl s = [] /\ wcnt s = 0) /\
-  (WQuiescent s -> hl s = [] -> wpc s a = WIdle \/ wpc s a = WGone) /\
-  (WQuiescent s -> wpc s a = WLw -> hl s <> [] /\ apc (A (wcs s) a) = WW) /\
-  (wpc s a = WGone -> ccan (A (wcs s) a) = true /\ aco (A (wcs s) a) = true).
-Proof. exact wg_wait_returns_exactly_when_all_dropped. Qed.
-Print Assumptions C11_wg_wait_returns_exactly_when_all_dropped.
-
-Theorem C11_wg_never_returns_early :
-  forall s, WReach s -> early s = false.
-Proof. exact wg_never_returns_early. Qed.
-Print Assumptions C11_wg_never_returns_early.
-
-Theorem C11_wg_zero_is_final :
-  forall s a, hl s = [] ->
-  wstep s (WClone a) = None /\ wstep s (WDrop a) = None /\ (forall co, wstep s (WWait a co) = None) /\ (forall a', wstep s (WGive a a') = None).
-Proof. exact wg_zero_is_final. Qed.
-Print Assumptions C11_wg_zero_is_final.
-
-Theorem C11_wg_race_free :
-  forall s, WReach s -> wviol s = false.
-Proof. exact wg_race_free. Qed.
-Print Assumptions C11_wg_race_free.
-
-Open Scope Z_scope.
 (* ---- tie: every state along an accepted trace of the real Condvar is a reachable state of the model ---- *)
 Theorem C11_accepted_traces_are_model_runs :
   forall tr sx, accept_all m_init tr = Some sx -> Reach (fst sx).
@@ -239,23 +78,3 @@ Proof. exact forwarded_somewhere. Qed.
 Example C11_canceled_somewhere : exists s s', run_strict init sch_cancel = Some s /\ Reach s /\ apc (A s 0%nat) = C1 /\ mx s = Some 0%nat /\
   step s (Step 0%nat) = Some s' /\ apc (A s' 0%nat) = Dead /\ mx s' = None /\ pois s' = false.
 Proof. exact canceled_somewhere. Qed.
-Close Scope Z_scope.
-Example C11_barrier_two_generations : exists s, brun 2 binit (bgen 0 1 ++ bgen 1 0) = Some s /\ BReach 2 s /\
-  gen s = 2 /\ arr s 0 = 2 /\ arr s 1 = 2 /\ ldr s 0 = 1 /\ ldr s 1 = 1 /\ ret s 0 = 1 /\ ret s 1 = 1 /\ cnt s = 0 /\ inl s = [] /\ viol s = false /\
-  bpc s 0 = BIdle /\ bpc s 1 = BIdle /\ mx (cs s) = None.
-Proof. exact barrier_two_generations. Qed.
-Example C11_barrier_parked_for_next_generation : exists s, brun 2 binit bsched_park = Some s /\ BReach 2 s /\ BQuiescent 2 s /\
-  gen s = 1 /\ bpc s 0 = BWait /\ lgen s 0 = 1 /\ bpc s 1 = BIdle /\ arr s 0 = 2 /\ ret s 0 = 1 /\ lret s 0 = 1 /\ arr s 1 = 1.
-Proof. exact barrier_parked_for_next_generation. Qed.
-Example C11_barrier_three_parties_three_generations : exists s, brun 2 binit (bgen 0 1 ++ bgen 2 0 ++ bgen 1 2) = Some s /\ BReach 2 s /\ BQuiescent 2 s /\
-  gen s = 3 /\ (forall g, g < 3 -> arr s g = 2 /\ ldr s g = 1 /\ lret s g = 1 /\ ret s g = 1) /\ inl s = [] /\ viol s = false /\ mx (cs s) = None.
-Proof. exact barrier_three_parties_three_generations. Qed.
-Example C11_wg_parked_while_handle_alive : exists s, wrun winit wsched_park = Some s /\ WReach s /\ WQuiescent s /\
-  wpc s 0 = WLw /\ apc (A (wcs s) 0) = WW /\ hl s = [1] /\ wcnt s = 1.
-Proof. exact wg_parked_while_handle_alive. Qed.
-Example C11_wg_all_returned : exists s, wrun winit (wsched ++ [WStep 0]) = Some s /\ WReach s /\ WQuiescent s /\
-  hl s = [] /\ wpc s 0 = WIdle /\ wpc s 1 = WIdle /\ early s = false.
-Proof. exact wg_all_returned. Qed.
-Example C11_wg_wait_returns_somewhere : exists s, wrun winit wsched = Some s /\ WReach s /\
-  wpc s 0 = WRet /\ hl s = [] /\ wcnt s = 0 /\ wviol s = false /\ early s = false /\ mx (wcs s) = None /\ wpc s 1 = WIdle.
-Proof. exact wg_wait_returns_somewhere. Qed.
